@@ -197,7 +197,7 @@ fn eval_bin(ctx: &Ctx, acc: &mut Acc, tabs: &Tables, opi: usize, a: &Operand, b:
         return;
     }
     if a.iv.lo.is_none() && a.iv.hi.is_none() && b.iv.lo.is_none() && b.iv.hi.is_none() {
-        acc.outcome(&(opi, view.bits_s, view.s, view.e, view.stride));
+        acc.outcome(&(opi, view.bits_s, view.stride, view.len()));
     }
     if let Some(c) = cache {
         if c.same_interval(&view) {
@@ -328,7 +328,7 @@ fn judge_unary(ctx: &Ctx, acc: &mut Acc, class: &str, case: &dyn Fn() -> Case, a
         return;
     }
     if a.lo.is_none() && a.hi.is_none() {
-        acc.outcome(&(class, view.bits_s, view.s, view.e, view.stride));
+        acc.outcome(&(class, view.bits_s, view.stride, view.len()));
     }
     let full = view.is_full();
     let Some(f) = f else {
@@ -478,25 +478,6 @@ fn main() {
         run_case(&ctx, &tabs, &case);
         ctx.finish("replay of one case", false);
     }
-    if std::env::var("C02_BENCH").is_ok() {
-        let a = build(&Iv { w: 1, s: -3, e: 5, stride: 2, lo: Some(-64), hi: Some(64), delay: 1 });
-        let b = build(&Iv { w: 1, s: 1, e: 3, stride: 1, lo: None, hi: Some(64), delay: 1 });
-        let t = std::time::Instant::now();
-        let mut n = 0u64;
-        for _ in 0..1_000_000 { let r = catch(|| a.bin_op(BinOpType::IntAdd, &b)).unwrap(); n += r.is_top() as u64; }
-        eprintln!("bin_op add: {:?} {n}", t.elapsed());
-        let t = std::time::Instant::now();
-        for _ in 0..1_000_000 { let r = catch(|| a.bin_op(BinOpType::IntAnd, &b)).unwrap(); n += r.is_top() as u64; }
-        eprintln!("bin_op and: {:?} {n}", t.elapsed());
-        let r = a.bin_op(BinOpType::IntAdd, &b);
-        let t = std::time::Instant::now();
-        for _ in 0..1_000_000 { let v = read_back(&r); n += v.stride; }
-        eprintln!("read_back: {:?} {n}", t.elapsed());
-        let t = std::time::Instant::now();
-        for _ in 0..1_000_000 { let v = serde_json::to_vec(&r).unwrap(); n += v.len() as u64; }
-        eprintln!("to_vec: {:?} {n}", t.elapsed());
-        std::process::exit(0);
-    }
     let ctx = &ctx;
     let tabs = &tabs;
     let thorough = ctx.thorough();
@@ -517,8 +498,14 @@ fn main() {
                 let (i, j) = ((idx / n) as usize, (idx % n) as usize);
                 for opi in 0..ALL_BINOPS.len() {
                     let mut cache: Option<View> = None;
-                    for ea in &elems[i] {
-                        for eb in &elems[j] {
+                    // quick tier: operations whose code does not look at the hints at all (everything
+                    // except the five interval-aware ones) get the first and the last configuration only
+                    let reduced = !thorough && !matches!(ALL_BINOPS[opi], BinOpType::Piece | BinOpType::IntAdd | BinOpType::IntSub | BinOpType::IntMult | BinOpType::IntLeft);
+                    for (ka, ea) in elems[i].iter().enumerate() {
+                        for (kb, eb) in elems[j].iter().enumerate() {
+                            if reduced && !((ka == 0 && kb == 0) || (ka + 1 == elems[i].len() && kb + 1 == elems[j].len())) {
+                                continue;
+                            }
                             acc.states += 1;
                             ctx.sample(|| serde_json::to_value(Case::Bin { op: format!("{:?}", ALL_BINOPS[opi]), a: ea.iv.clone(), b: eb.iv.clone() }).unwrap());
                             eval_bin(
@@ -561,6 +548,53 @@ fn main() {
                 }
                 acc.states += 1;
                 eval_subpiece(ctx, acc, &e.iv, &e.dom, 0, 1);
+            },
+            |acc| acc.flush(ctx),
+        );
+    }
+    // ------------------------------------------------------------------ thorough: EVERY 1-byte interval
+    if thorough {
+        let all1 = all1_bare();
+        ctx.set("all_1_byte_intervals", json!(all1.len()));
+        let partners: Vec<Elem> = i1_bare(false).into_iter().enumerate().map(|(idx, b)| elem1(b, idx, 0, &GRID_QUICK)).collect();
+        let aware: Vec<usize> = ALL_BINOPS.iter().enumerate().filter(|(_, o)| matches!(o, BinOpType::Piece | BinOpType::IntAdd | BinOpType::IntSub | BinOpType::IntMult | BinOpType::IntLeft)).map(|(i, _)| i).collect();
+        let (all1, partners, aware) = (&all1, &partners, &aware);
+        par_fold(
+            all1.len() as u64,
+            16,
+            Acc::default,
+            |acc, i| {
+                let bare = all1[i as usize];
+                // unary ops, casts, subpiece: without hints and with one hint configuration
+                for k in [0usize, 1 + i as usize] {
+                    let e = elem1(bare, i as usize, k, &GRID);
+                    if k != 0 && e.iv.lo.is_none() && e.iv.hi.is_none() {
+                        continue;
+                    }
+                    for op in ALL_UNOPS {
+                        acc.states += 1;
+                        eval_un(ctx, acc, op, &e.iv, &e.dom);
+                    }
+                    for op in ALL_CASTS {
+                        for to in [1u32, 2, 4, 8] {
+                            acc.states += 1;
+                            eval_cast(ctx, acc, op, &e.iv, &e.dom, to);
+                        }
+                    }
+                    acc.states += 1;
+                    eval_subpiece(ctx, acc, &e.iv, &e.dom, 0, 1);
+                }
+                // the five interval-aware binary ops against every interval of the quick I1, both orders
+                let e = elem1(bare, i as usize, i as usize, &GRID);
+                let me = Operand { iv: &e.iv, dom: &e.dom, members1: Some(&e.members) };
+                for p in partners.iter() {
+                    let o = Operand { iv: &p.iv, dom: &p.dom, members1: Some(&p.members) };
+                    for &opi in aware.iter() {
+                        acc.states += 2;
+                        eval_bin(ctx, acc, tabs, opi, &me, &o, &mut None, false);
+                        eval_bin(ctx, acc, tabs, opi, &o, &me, &mut None, false);
+                    }
+                }
             },
             |acc| acc.flush(ctx),
         );
@@ -754,10 +788,11 @@ fn main() {
     ctx.set(
         "bounds",
         json!({
-            "part1": "1 byte: all pairs of I1 (grid end points, strides 0,1,2,3,4,5,8,16,64, anchored short intervals, Top) x hint configurations (none/lower/upper/both, delays 0,1,5) x all 34 binary ops; every member pair (<= 65536) checked",
+            "part1": if thorough { "1 byte: all pairs of I1 (grid end points, strides 0,1,2,3,4,5,8,16,64, anchored short intervals, Top) x all pairs of hint configurations (none/lower/upper/both, delays 0,1,5) x all 34 binary ops; every member pair (<= 65536) checked" } else { "1 byte: all pairs of I1 (reduced grid, strides 0,1,2,3,4,5,8,16,64, anchored short intervals, Top) x all 34 binary ops; all pairs of hint configurations for Piece/IntAdd/IntSub/IntMult/IntLeft, the first and last configuration pair for the 29 operations that ignore hints; every member pair (<= 65536) checked" },
             "part2": "1 byte: every I1 value x hints x 10 unary ops, 7 casts to 1/2/4/8 bytes, subpiece; every member checked",
             "part3": "2 bytes: I1 intervals moved across byte/sign boundaries and scaled by 256 (<= 256 members, every member checked) x unary ops, casts, all subpieces, all binary ops against 18 fixed 2-byte operands (both orders), shifts/piece with 7 fixed 1-byte operands",
             "part4": "widths 2,4,8: intervals over boundary points and strides (incl. 2^(bits/2), 2^(bits-2)), one hint configuration each; all pairs x all binary ops, shifts by 1-byte and same-width amounts, piece with all other widths (sum <= 16), unary ops, casts to 1..16, every subpiece; members = all if <= 256, else the member alphabet (end points, 3 strides from either end, neighbours of the boundary points) -- NOT all members",
+            "thorough_only": "EVERY well-formed 1-byte interval (170 700: all starts, all strides, all lengths), without hints and with one hint configuration: all unary ops, casts, subpiece; Piece/IntAdd/IntSub/IntMult/IntLeft against every interval of the quick I1 in both operand orders; every member (pair) checked",
             "grid": if thorough { GRID.to_vec() } else { GRID_QUICK.to_vec() },
             "strides": STRIDES,
         }),
